@@ -19,6 +19,7 @@ LEVEL = "model_checking"
 BIN = "c17"
 T_LRU = "Trace_Lru"
 T_PC = "Trace_PageCache"
+T_LIN = "Trace_LruLin"
 
 
 # ----------------------------------------------------------------------------- corruptions (binding self-tests)
@@ -133,6 +134,154 @@ def c_cstore_value(reset, e, before):
     return False
 
 
+def c_foreach(reset, e, before):
+    if reset.get("domain") == "lru" and reset.get("strategy") == "hash" and e.get("op") == "for_each_shard" and e.get("ok"):
+        e["hits"] = e["hits"] + 1
+        return True
+    return False
+
+
+def c_is_empty(reset, e, before):
+    if reset.get("domain") == "lru" and e.get("op") == "is_empty":
+        e["r"] = not e["r"]
+        return True
+    return False
+
+
+def c_zero_path(reset, e, before):
+    """get_zero_path returns the path of another state / a stale path: one byte differs"""
+    if reset.get("domain") == "fsa" and e.get("op") == "get_zero_path" and e.get("r") and e["r"][0]:
+        e["r"] = [[(e["r"][0][0] + 1) % 256] + e["r"][0][1:]]
+        return True
+    return False
+
+
+def c_zero_path_stale(reset, e, before):
+    """a state id without zero path (never given one, or given to a NEW state after eviction) answers with a path"""
+    if reset.get("domain") == "fsa" and e.get("op") == "get_zero_path" and not e.get("r") and any(b.get("op") == "add_zero_path" and b.get("ok") for b in before):
+        e["r"] = [[1, 2, 3]]
+        e["total"] = 3
+        return True
+    return False
+
+
+def c_cstate(reset, e, before):
+    if reset.get("domain") == "fsa" and e.get("op") == "cstate":
+        e["marked"] = e["marked"][:3] + [False]
+        return True
+    return False
+
+
+def c_buf(reset, e, before):
+    """data() of a CacheBuffer shows another byte than was put in"""
+    if reset.get("domain") == "buffer" and e.get("op") in ("buf_extend", "buf_copy", "buf_from_data", "buf_move") and e.get("data") \
+            and not any(b.get("op") == "buf_reserve" for b in before):
+        e["data"] = [(e["data"][0] + 1) % 256] + e["data"][1:]
+        return True
+    return False
+
+
+def c_buf_pool(reset, e, before):
+    """a buffer taken from the pool still holds bytes"""
+    if reset.get("domain") == "buffer" and e.get("op") == "buf_new" and any(b.get("op") == "pool_put" for b in before) \
+            and not any(b.get("op") == "buf_reserve" for b in before):
+        e["data"] = [7]
+        e["len"] = 1
+        e["empty"] = False
+        e["has"] = True
+        return True
+    return False
+
+
+def c_far(reset, e, before):
+    """a read at an offset beyond 2^44 returns the bytes of the page its 32-bit page number aliases"""
+    if reset.get("domain") == "pagecache" and e.get("op") == "read_far" and e.get("ok") and _clean_pc(before):
+        e["r"] = [97, 98, 99]
+        return True
+    return False
+
+
+def c_fid(reset, e, before):
+    """two open files get the same file id"""
+    if reset.get("domain") == "pagecache" and e.get("op") == "file" and e.get("ok") and any(b.get("op") == "file" and b.get("ok") for b in before):
+        e["fid"] = next(b["fid"] for b in before if b.get("op") == "file" and b.get("ok"))
+        return True
+    return False
+
+
+def c_inner_remove(reset, e, before):
+    """after the record was removed from the wrapped store the cached store still serves it"""
+    if reset.get("domain") == "cstore" and e.get("op") == "get" and not e.get("ok") and not e.get("iok"):
+        for b in before:
+            if b.get("op") == "put" and b.get("ok") and b.get("id") == e.get("id"):
+                e["ok"] = True
+                e["r"] = b["d"]
+                return True
+    return False
+
+
+def selftest_parallel(ctx, jobs):
+    """jobs: (module, files, fn, what, required).  Same protocol as selftest(), the TLC runs side by side."""
+    import concurrent.futures as cf
+
+    def one(i, job):
+        module, files, fn, what, required = job
+        for path in files:
+            for run in vlib.split_runs(vlib.read_ndjson(path)):
+                c = Corrupt(fn)
+                mutated = c([json.loads(json.dumps(e)) for e in run])
+                if mutated is None:
+                    continue
+                p = os.path.join(ctx.work, "selftest-p%d.ndjson" % i)
+                vlib.write_ndjson(p, mutated)
+                r = vlib.validate_one(module, p)
+                ok = (not r["accepted"]) and r["rejected_at"] == c.line
+                return {"what": what, "rejected_as_expected": ok, "at": r["rejected_at"], "corrupted_line": c.line, "err": (r.get("err") or "")[:300]}
+        return {"what": what, "rejected_as_expected": None if not required else False, "note": "no suitable run recorded in this tier/seed"}
+
+    with cf.ThreadPoolExecutor(max_workers=min(ctx.jobs, 8)) as ex:
+        res = list(ex.map(lambda ij: one(*ij), enumerate(jobs)))
+    for r in res:
+        if not r.pop("err", ""):
+            pass
+        ctx.cov["selftests"].append(r)
+        if r["rejected_as_expected"] is False:
+            raise vlib.ToolError("binding self-test failed: %s" % r)
+        vlib.log("self-test %s: %s (line %s)" % ("ok" if r["rejected_as_expected"] else "skipped", r["what"], r.get("at")))
+
+
+def selftest_lin(ctx, files, tries=6):
+    """a recorded multi-threaded run that IS linearizable, with one returned value replaced by a value nobody put: must be rejected"""
+    n = 0
+    for path in files:
+        for run in vlib.split_runs(vlib.read_ndjson(path)):
+            if any(e.get("op") == "hang" or e.get("pending") for e in run[1:]):
+                continue
+            tgt = next((i for i, e in enumerate(run) if e.get("op") in ("get", "put") and e.get("r") and e.get("ok", True)), None)
+            if tgt is None:
+                continue
+            n += 1
+            if n > tries:
+                break
+            p = os.path.join(ctx.work, "selftest-lin.ndjson")
+            vlib.write_ndjson(p, run)
+            if not vlib.validate_one(T_LIN, p)["accepted"]:
+                continue        # this run itself has no linearization (known finding C17-KF7): not usable
+            bad = [json.loads(json.dumps(e)) for e in run]
+            bad[tgt]["r"] = [4999]
+            vlib.write_ndjson(p, bad)
+            r = vlib.validate_one(T_LIN, p)
+            ok = (not r["accepted"]) and r["rejected_at"] is not None
+            ctx.cov["selftests"].append({"what": "multi-threaded run: a returned value replaced by one nobody put", "rejected_as_expected": ok, "at": r["rejected_at"]})
+            if not ok:
+                raise vlib.ToolError("binding self-test failed: corrupted multi-threaded run was accepted: %s" % r)
+            vlib.log("self-test ok: corrupted multi-threaded run rejected (depth %s)" % r["rejected_at"])
+            return True
+    ctx.cov["selftests"].append({"what": "multi-threaded run: a returned value replaced by one nobody put", "rejected_as_expected": None,
+                                 "note": "no linearizable multi-threaded run recorded (callers hang / interleave on this tree)"})
+    return False
+
+
 def selftest(ctx, module, files, fn, what, required=True):
     """corrupt one event of one recorded (strictly accepted) run, cut the run there: TLC must reject exactly that line"""
     for path in files:
@@ -210,15 +359,30 @@ def run(ctx):
     pc_b1 = sorted(glob.glob(os.path.join(s1["_out"], "pc-*.ndjson")))
     lru_b2 = sorted(f for o in s2["_outs"] for f in glob.glob(os.path.join(o, "*.ndjson")))
     ctx.validate(T_LRU, lru_b1 + lru_b2, what="LRU map / bounded store operation history")
-    ctx.validate(T_PC, pc_b1, what="page cache / cached blob store operation history")
+    ctx.validate(T_PC, pc_b1, what="page cache / cached blob store / cache buffer operation history")
+    lin_b1 = sorted(glob.glob(os.path.join(s1["_out"], "lin*.ndjson")))
+    ctx.validate(T_LIN, lin_b1, what="LRU map driven by several caller threads (linearizability)")
     # --- binding self-tests: a corrupted observation must be rejected at exactly that line
     selftest(ctx, T_LRU, lru_b1, c_evicted, "evicted-key list of a put altered (key + 1)")
-    selftest(ctx, T_LRU, lru_b1, c_evicted_dropped, "eviction happened but the callback log is empty")
-    selftest(ctx, T_LRU, lru_b1, c_get_value, "value returned by get changed by +1")
-    selftest(ctx, T_LRU, lru_b1, c_fsa_value, "record returned by FsaCache::get_state changed")
     selftest(ctx, T_PC, pc_b1, c_page_byte, "one byte of a page-cache read result changed")
-    selftest(ctx, T_PC, pc_b1, c_page_stale, "read after rewrite + invalidate returns the old bytes (stale page)", required=False)
-    selftest(ctx, T_PC, pc_b1, c_cstore_value, "digest returned by CachedBlobStore::get changed")
+    selftest_parallel(ctx, [
+        (T_LRU, lru_b1, c_evicted_dropped, "eviction happened but the callback log is empty", True),
+        (T_LRU, lru_b1, c_get_value, "value returned by get changed by +1", True),
+        (T_LRU, lru_b1, c_fsa_value, "record returned by FsaCache::get_state changed", True),
+        (T_LRU, lru_b1, c_foreach, "for_each_shard: number of shards holding the key changed", True),
+        (T_LRU, lru_b1, c_is_empty, "is_empty() flipped", True),
+        (T_LRU, lru_b1, c_zero_path, "FsaCache::get_zero_path: one byte of the path changed", True),
+        (T_LRU, lru_b1, c_zero_path_stale, "FsaCache::get_zero_path answers for a state that has no zero path", True),
+        (T_LRU, lru_b1, c_cstate, "CachedState::mark_free has no effect", True),
+        (T_PC, pc_b1, c_page_stale, "read after rewrite + invalidate returns the old bytes (stale page)", False),
+        (T_PC, pc_b1, c_cstore_value, "digest returned by CachedBlobStore::get changed", True),
+        (T_PC, pc_b1, c_inner_remove, "CachedBlobStore::get serves a record removed from the wrapped store", True),
+        (T_PC, pc_b1, c_buf, "CacheBuffer::data() shows another byte than was put in", True),
+        (T_PC, pc_b1, c_buf_pool, "BufferPool::get hands out a buffer that still holds bytes", False),
+        (T_PC, pc_b1, c_far, "read beyond 2^44 returns bytes (page number aliased modulo 2^32)", True),
+        (T_PC, pc_b1, c_fid, "two open files share a file id", True),
+    ])
+    selftest_lin(ctx, lin_b1)
     evidence(ctx, s1, s2, nbeh, lru_b1, lru_b2, pc_b1)
 
 
@@ -260,7 +424,10 @@ def evidence(ctx, s1, s2, nbeh, lru_b1, lru_b2, pc_b1):
                    "succeeded.  B1: seeded random histories per subject (LruMap presets and ConcurrentLruMap shard counts/strategies with "
                    "capacities 1..4 and a recording eviction callback; FsaCache strategies x max_states; page caches of 1..3 pages over "
                    "files of up to 6 pages + partial page with unaligned/page-straddling/beyond-EOF reads, rewrites, invalidations, "
-                   "prefetches; CachedBlobStore x write strategies), every event validated by TLC; a (subject, run) counts when a required "
+                   "prefetches, far offsets, virtual file ids, multi-request read_batch, held CacheBuffers; CachedBlobStore x write strategies "
+                   "with writes/removes behind the cache through inner_mut; CacheBuffer/BufferPool as byte containers; LruMap and "
+                   "ConcurrentLruMap shared by 3 caller threads, each run judged for linearizability by Trace_LruLin), every event "
+                   "validated by TLC; a (subject, run) counts when a required "
                    "action (put / cache_state / read / get) succeeded in the subject.  exhaustive refers to the B2 history space."
                    % ("5" if ctx.thorough else "4"))
     for fl, n in ((lru_b1, 9), (pc_b1, 7), (lru_b2, 8)):
@@ -277,7 +444,7 @@ def evidence(ctx, s1, s2, nbeh, lru_b1, lru_b2, pc_b1):
         "the shard of a ConcurrentLruMap call is derived by TLC from logged before/after observations (shard_sizes, per-shard put/get counters), not computed by the harness",
         "B2 pre-filter compares with TLC-computed values for equality; every differing history without a refused put (up to 400 per subject and chunk), a capped number of those with a refused put and a seeded sample of matching ones are judged by TLC",
         "digest collisions (60 bit) are neglected for CachedBlobStore records",
-        "bounded: histories <= L for B2, seeded random for B1; ConcurrentLruMap is driven one call at a time (no concurrent calls)",
+        "bounded: histories <= L for B2, seeded random for B1; the multi-threaded runs are unscheduled stress (no schedule points in lru_map.rs): 3 threads x 6-7 calls, what they find depends on timing; a concurrent len() is judged against the capacity bound only",
         "src/cache/lru_cache.rs, page_cache.rs, sharding.rs, simple_impl.rs are not compiled into the crate (cache/mod.rs declares only config, stats, buffer, basic_cache): nothing to bind",
     ]
 
@@ -297,8 +464,11 @@ def replay(ctx, path):
     else:
         s = ctx.harness(BIN, "drive", "rp", subject=subj)
         outs = [s["_out"]]
-    lru = sorted(f for o in outs for f in glob.glob(os.path.join(o, "lru*.ndjson")))
+    lru = sorted(f for o in outs for f in glob.glob(os.path.join(o, "lru[-b]*.ndjson")))
     pc = sorted(f for o in outs for f in glob.glob(os.path.join(o, "pc-*.ndjson")))
+    lin = sorted(f for o in outs for f in glob.glob(os.path.join(o, "lin*.ndjson")))
+    if lin:
+        ctx.validate(T_LIN, lin, what="replay of " + os.path.basename(path))
     if lru:
         ctx.validate(T_LRU, lru, what="replay of " + os.path.basename(path))
     if pc:
